@@ -18,12 +18,21 @@ Facets
         orthonormal eigenbasis of the saved matrix, omega = sqrt(lambda) for clearly positive lambda, spectrum equals
         the reference spectrum (Weyl bound); PR in (0,1] and equal to the documented formula on <out>.evecs.npy;
         file-saving flags and the default output name.
+      Species class (extension 1): K = 2..3 species are DECLARED in the parameter matrices / mass dict but one (sometimes
+      two) of them does not occur in the snapshot, preferably not the highest one; the oracle indexes every parameter
+      by type id - 1.  Minimal sizes N = 1, 2, 3 are a class of their own.
+  call_sequence  (extension 1: state carried between calls)
+      ONE HessianMatrix object, 2-3 diagonalize_hessian calls: the same model with a changed ipl_n / ipl_A /
+      harmonic_hertz_alpha, model A - model B - model A, free sequences; distinct output names, one name reused, default
+      names; in a third of the cases a second configuration of the same particles is written into snapshot.positions
+      IN PLACE between calls (HessianMatrix keeps the snapshot by reference and reads it at call time, L257-258).
+      Every call's three files are compared with the oracle for that call's parameters and positions.
   pair_matrix
       the pair block as a pure function of (Rji, [s1, s1rc, s2]): s2 u u^T + (s1 - s1rc)(1 - u u^T)/r, and its
       negative, 2D and 3D, list or array input.
 
 Preconditions imposed on the generator (documented domain / what callers pass):
-  * type ids 1..K all present; float parameter matrices of shape (K,K), symmetric (hessians.py L149-185);
+  * type ids within 1..K (K = number of declared species; in the 'absent' class not all occur); float parameter matrices of shape (K,K), symmetric (hessians.py L149-185);
     masses dict {type: float > 0};
   * no pair closer than 0.8 sigma_ab (by construction: lattice spacing minus jitter), no pair within 1e-6 (relative)
     of its cut-off (by construction: the offending cut-off is nudged), so cut-off membership is unambiguous;
@@ -42,7 +51,7 @@ import pandas as pd
 from hypothesis import strategies as st
 from hypothesis.extra import numpy as hnp
 
-from ..gen import fl, nice_float, snapshot_from, types_st
+from ..gen import fl, nice_float, snapshot_from
 from ..harness import Facet, Violation
 from ..ref import geom, hessref
 from ..util import arr, col, columns, require
@@ -52,8 +61,9 @@ from PyMatterSim.static.hessians import HessianMatrix, InteractionParams, ModelN
 RULE = ("configurations: 4..14 particles on a jittered sub-lattice blob (min distance >= 0.8 sigma_max), placed anywhere "
         "in an orthogonal or tilted cell (widths > 2 r_c,max), wrapped, optional image offsets; d in {2,3}; K in 1..3; "
         "masses equal / unequal; symmetric float epsilon, sigma, r_c matrices; LJ, IPL (n in {6,10,12} or real, A), "
-        "harmonic/Hertz (alpha in {2, 2.5} or real, r_c = sigma); shift on/off; all periodicity masks. "
-        "non-trivial = >= 2 species with unequal masses and every particle has an interacting partner")
+        "harmonic/Hertz (alpha in {2, 2.5} or real, r_c = sigma); shift on/off; all periodicity masks; "
+        "species declared but absent; call sequences on one object. non-trivial = every particle has an interacting "
+        "partner and (>= 2 occurring species with unequal masses, or an absent species below an occurring one)")
 ASSUMPTIONS = [
     "specification = truncated pair energy of the documented s(r), force-shifted with the documented cut-off slope when "
     "shifting is on (Hertz: documented slope 0); derivatives by sympy, 40-digit mpmath evaluation (trusted)",
@@ -67,6 +77,11 @@ ASSUMPTIONS = [
     "reported for non-positive eigenvalues is not asserted; row order of omega_PR.csv is tied to the columns of "
     "evecs.npy, not to a sort order",
     "cut-off membership: no generated pair lies within 1e-6 r_c of its cut-off",
+    "parameter matrices / mass dict are indexed by type id - 1 (documented: 'for all pairs of particle type', masses "
+    "{1: .., 2: ..}) also when a declared species does not occur in the snapshot",
+    "call_sequence: the object holds the snapshot by reference; a result must reflect the interaction parameters and "
+    "the snapshot contents at the time of the call (an implementation that copied the positions at construction "
+    "would be reported by the in-place class)",
 ]
 MANIFEST = {
     "text": ("Generated-configuration differential check of HessianMatrix.diagonalize_hessian / pair_matrix: the saved "
@@ -74,8 +89,10 @@ MANIFEST = {
              "blocks (sympy/mpmath, derived entrywise tolerance), finite differences of the reference gradient and "
              "60-digit second differences of the reference energy; symmetry, translation null vectors, eigenbasis / "
              "frequency / participation-ratio consistency of the three output files; 2D/3D, K = 1..3, equal and "
-             "unequal masses, three potentials, shift on/off, masks, orthogonal and tilted cells (facets: "
-             "lennard_jones, inverse_power_law, harmonic_hertz, pair_matrix)."),
+             "unequal masses, declared-but-absent species, N = 1..14, three potentials, shift on/off, masks, orthogonal "
+             "and tilted cells; call sequences on one object (changed exponents / prefactors, A-B-A, reused output "
+             "names, positions rewritten in place) (facets: lennard_jones, inverse_power_law, harmonic_hertz, "
+             "call_sequence, pair_matrix)."),
     "note": ("Sampling, not proof. N <= 14 particles; cells wide enough that a pair interacts through at most one "
              "image; pairs within 1e-6 of a cut-off are not generated; Hertz only with r_c = sigma. Trusted base: "
              "sympy, mpmath, numpy.linalg.eigvalsh."),
@@ -110,7 +127,88 @@ def perp_widths(H):
 
 
 @st.composite
-def case_st(draw, model):
+def species_st(draw, N, K):
+    """Type ids in 1..K.  Mostly every declared species occurs; in the 'absent' class one (sometimes two) declared
+    species does not occur in the snapshot - preferably not the highest one (a pure-species-2 run analysed with the
+    binary mixture's parameter file).  Returns (types, class tag)."""
+    present = list(range(1, K + 1))
+    if K >= 2 and draw(st.integers(0, 2)) == 0:
+        present.remove(draw(st.sampled_from(list(range(1, K)) * 2 + [K])))
+        if len(present) > 1 and draw(st.integers(0, 3)) == 0:
+            present.remove(draw(st.sampled_from(present)))
+    head = list(draw(st.permutations(present)))[:N]
+    rest = draw(st.lists(st.sampled_from(present), min_size=N - len(head), max_size=N - len(head)))
+    t = head + rest
+    perm = draw(st.permutations(range(N)))
+    types = np.array([t[i] for i in perm], dtype=int)
+    occ = set(types.tolist())
+    missing = [k for k in range(1, K + 1) if k not in occ]
+    if not missing:
+        tag = "species-all-present"
+    elif any(k < max(occ) for k in missing):
+        tag = "species-absent-below-a-present-one"
+    else:
+        tag = "species-absent-top-only"
+    return types, tag
+
+
+def _model_params(draw):
+    n = draw(st.sampled_from([6, 10, 12, 10.0, 12.0])) if draw(st.integers(0, 3)) else draw(fl(4.0, 14.0))
+    A = draw(st.one_of(st.just(1.0), nice_float(0.5, 3.0)))
+    alpha = draw(st.sampled_from([2.0, 2.5, 2.0, 2.5, 3.0])) if draw(st.integers(0, 3)) else draw(fl(2.0, 3.0))
+    return {"n": n, "A": A, "alpha": alpha}
+
+
+FILES = ["both", "both", "both", "both", "no-evecs", "no-hessian", "default-name"]
+
+
+def _steps(draw, base, two_positions):
+    """Call sequence on ONE HessianMatrix object.  Hertz needs r <= sigma = r_c, so it only joins sequences on
+    Hertz geometry; LJ and IPL are defined for any cut-off and appear on every geometry."""
+    allowed = list(MODELS) if base == "harmonic_hertz" else ["lennard_jones", "inverse_power_law"]
+    with_par = [m for m in allowed if m != "lennard_jones"]
+    pattern = draw(st.sampled_from(["same-model-new-params", "same-model-new-params", "A-B-A", "free"]))
+    nsteps = draw(st.integers(2, 3))
+    steps = []
+    if pattern == "same-model-new-params":
+        m = draw(st.sampled_from(with_par))
+        first = _model_params(draw)
+        for k in range(nsteps):
+            mp_ = dict(first)
+            if k:
+                which = "alpha" if m == "harmonic_hertz" else draw(st.sampled_from(["n", "A", "n"]))
+                new = _model_params(draw)[which]
+                if new == steps[-1][which]:
+                    new = {"n": 8, "A": 1.75, "alpha": 2.25}[which] if new != {"n": 8, "A": 1.75, "alpha": 2.25}[which] \
+                        else {"n": 9, "A": 2.5, "alpha": 2.75}[which]
+                mp_ = {**steps[-1], which: new}
+                mp_ = {k_: mp_[k_] for k_ in ("n", "A", "alpha")}
+            steps.append({"model": m, **mp_})
+    elif pattern == "A-B-A":
+        ma = draw(st.sampled_from(allowed))
+        mb = draw(st.sampled_from([m for m in allowed if m != ma]))
+        pa = _model_params(draw)
+        steps = [{"model": ma, **pa}, {"model": mb, **_model_params(draw)},
+                 {"model": ma, **(pa if draw(st.booleans()) else _model_params(draw))}]
+    else:
+        steps = [{"model": draw(st.sampled_from(allowed)), **_model_params(draw)} for _ in range(nsteps)]
+    names = draw(st.sampled_from(["distinct", "same", "same", "default"]))
+    cur = 0
+    for k, stp in enumerate(steps):
+        stp["files"] = draw(st.sampled_from(FILES[:6])) if names != "default" else "default-name"
+        stp["out"] = {"distinct": f"c11seq{k}", "same": "c11seq", "default": ""}[names]
+        if two_positions and k and draw(st.booleans()):
+            cur = 1 - cur
+        stp["pos"] = cur
+    if two_positions and all(stp["pos"] == 0 for stp in steps):
+        steps[-1]["pos"] = 1
+    return steps, pattern, names
+
+
+@st.composite
+def case_st(draw, model=None, seq=False):
+    if model is None:
+        model = draw(st.sampled_from(MODELS))
     d = draw(st.sampled_from([2, 3]))
     K = draw(st.sampled_from([1, 2, 2, 3, 3]))
     (fa_lo, fa_hi), smin, (c_lo, c_hi) = GEOM[model]
@@ -139,14 +237,20 @@ def case_st(draw, model):
     if int(np.prod(bl)) < 4:
         bl[0], bl[1] = 2, 2
     sites = np.array(list(itertools.product(*[range(b) for b in bl])), dtype=float)
-    N = draw(st.integers(max(4, K), min(14, len(sites))))
+    if draw(st.integers(0, 11)) == 0:
+        N = draw(st.integers(1, 3))          # minimal sizes: one particle (no pair), one pair, three
+    else:
+        N = draw(st.integers(4, min(14, len(sites))))
     order = draw(st.permutations(range(len(sites))))
     sites = sites[list(order[:N])]
     jmax = (a0 - DMIN * smax) / (2.0 * np.sqrt(d))
     jf = draw(st.sampled_from([0.0, 0.3, 1.0, 1.0]))
     jit = jf * jmax * draw(hnp.arrays(np.float64, (N, d), elements=fl(-1.0, 1.0)))
-    local = sites * ak + jit
-    diam = float(np.linalg.norm((np.array(bl) - 1) * ak + 2 * jf * jmax))
+    locals_ = [sites * ak + jit]
+    two_positions = seq and draw(st.integers(0, 2)) == 0
+    if two_positions:   # a second configuration of the same particles, written into snapshot.positions in place
+        locals_.append(sites * ak + max(jf, 0.3) * jmax * draw(hnp.arrays(np.float64, (N, d), elements=fl(-1.0, 1.0))))
+    diam = float(np.linalg.norm((np.array(bl) - 1) * ak + 2 * max(jf, 0.3 if two_positions else 0.0) * jmax))
     # --- cell
     ppp = np.ones(d, dtype=int)
     if draw(st.booleans()):
@@ -167,21 +271,22 @@ def case_st(draw, model):
             Hm = Hm * (W / w * 1.001)
     lo = np.zeros(d) if draw(st.booleans()) else np.array([draw(nice_float(-20.0, 20.0)) for _ in range(d)])
     origin = draw(hnp.arrays(np.float64, (d,), elements=fl(0.0, 1.0, exclude_max=True))) @ Hm
-    f = geom.frac_coords(origin + local, Hm)
-    f = f - np.floor(f)          # wrapped through every face (also the open ones: then the halves do not interact)
     images = np.zeros((N, d))
     if draw(st.booleans()):
         images = draw(hnp.arrays(np.int64, (N, d), elements=st.integers(-1, 1))).astype(float) * ppp
-    pos = lo + (f + images) @ Hm
-    types = draw(types_st(N, K))
-    # --- model parameters
-    n = draw(st.sampled_from([6, 10, 12, 10.0, 12.0])) if draw(st.integers(0, 3)) else draw(fl(4.0, 14.0))
-    A = draw(st.one_of(st.just(1.0), nice_float(0.5, 3.0)))
-    alpha = draw(st.sampled_from([2.0, 2.5, 2.0, 2.5, 3.0])) if draw(st.integers(0, 3)) else draw(fl(2.0, 3.0))
+    pos_list = []
+    for local in locals_:
+        f = geom.frac_coords(origin + local, Hm)
+        f = f - np.floor(f)      # wrapped through every face (also the open ones: then the halves do not interact)
+        pos_list.append(lo + (f + images) @ Hm)
+    types, species_tag = draw(species_st(N, K))
     shift = draw(st.integers(0, 9)) % 2 == 0
     # --- keep every pair clear of its cut-off (construction, not rejection)
-    ii, jj, _, _, r = hessref.pair_geometry(pos, Hm, ppp)
+    geo = [hessref.pair_geometry(p_, Hm, ppp) for p_ in pos_list]
+    ii, jj = geo[0][0], geo[0][1]
     ta, tb = types[ii] - 1, types[jj] - 1
+    ta, tb = np.tile(ta, len(geo)), np.tile(tb, len(geo))
+    r = np.concatenate([g_[4] for g_ in geo])
     nudges = 0
     for _ in range(60):
         near = np.abs(r - rc[ta, tb]) <= NEAR * rc[ta, tb]
@@ -192,12 +297,18 @@ def case_st(draw, model):
             if model == "harmonic_hertz":
                 sig[a_, b_] = sig[b_, a_] = rc[a_, b_]
         nudges += 1
-    files = draw(st.sampled_from(["both", "both", "both", "both", "no-evecs", "no-hessian", "default-name"]))
-    probes = [(draw(st.integers(0, N * d - 1)), draw(st.integers(0, N * d - 1))) for _ in range(3)]
-    return {"model": model, "d": d, "K": K, "H": Hm, "lo": lo, "tri": tri, "pos": pos, "types": types, "ppp": ppp,
-            "eps": eps, "sig": sig, "rc": rc, "masses": masses, "mmode": mmode, "n": n, "A": A, "alpha": alpha,
-            "shift": shift, "files": files, "probes": probes, "images": bool(np.any(images)), "jf": jf,
-            "nudges": nudges, "default_shift": draw(st.booleans())}
+    if seq:
+        steps, pattern, names = _steps(draw, model, two_positions)
+    else:
+        files = draw(st.sampled_from(FILES))
+        steps = [{"model": model, **_model_params(draw), "files": files,
+                  "out": "" if files == "default-name" else "c11out", "pos": 0}]
+        pattern, names = "single", "single"
+    probes = [(draw(st.integers(0, N * d - 1)), draw(st.integers(0, N * d - 1))) for _ in range(3 if not seq else 1)]
+    return {"base": model, "d": d, "K": K, "H": Hm, "lo": lo, "tri": tri, "pos_list": pos_list, "types": types,
+            "ppp": ppp, "eps": eps, "sig": sig, "rc": rc, "masses": masses, "mmode": mmode, "steps": steps,
+            "shift": shift, "probes": probes, "images": bool(np.any(images)), "jf": jf, "species": species_tag,
+            "pattern": pattern, "names": names, "nudges": nudges, "default_shift": draw(st.booleans())}
 
 
 # ----------------------------------------------------------------------------- running the code under test
@@ -214,7 +325,7 @@ def interaction_params(case):
 
 def make_hessian(case):
     cell = {"H": case["H"], "lo": case["lo"], "kind": "tri" if case["tri"] else "ortho"}
-    snap = snapshot_from(cell, case["pos"], case["types"])
+    snap = snapshot_from(cell, case["pos_list"][0].copy(), case["types"])
     masses = {k + 1: float(m) for k, m in enumerate(case["masses"])}
     kw = dict(snapshot=snap, masses=masses, epsilons=case["eps"].copy(), sigmas=case["sig"].copy(),
               r_cuts=case["rc"].copy(), ppp=case["ppp"].copy())
@@ -229,7 +340,7 @@ def params_of(case):
 
 
 def brief(case):
-    return {"model": case["model"], "d": case["d"], "N": int(len(case["types"])), "K": case["K"],
+    return {"model": case["model"], "step": case.get("step", 0), "sequence": case.get("sequence"), "d": case["d"], "N": int(len(case["types"])), "K": case["K"],
             "types": np.asarray(case["types"]).tolist(), "masses": np.asarray(case["masses"]).tolist(),
             "shift": case["shift"], "ppp": np.asarray(case["ppp"]).tolist(), "tri": case["tri"],
             "n": case["n"], "A": case["A"], "alpha": case["alpha"]}
@@ -261,38 +372,90 @@ def _unmatched(want, have, tol):
 
 
 def check(case):
+    """One HessianMatrix object, one or several diagonalize_hessian calls; every call is compared with the oracle for
+    the parameters of THAT call and the snapshot contents at the time of THAT call."""
+    case = _upgrade(case)
+    h, snap = make_hessian(case)
+    stems = {(st_["out"] or st_["model"]) for st_ in case["steps"]}
+    for stem in stems:                  # the scratch cwd is shared by the cases of one worker
+        for suffix in (".hessianmatrix.npy", ".evecs.npy", ".omega_PR.csv"):
+            if os.path.exists(stem + suffix):
+                os.remove(stem + suffix)
+    seq = [(st_["model"], st_["n"], st_["A"], st_["alpha"], st_["pos"], st_["out"]) for st_ in case["steps"]]
+    tags, extra, nontrivial = [], {}, True
+    written = set()
+    cur = 0
+    for k, step in enumerate(case["steps"]):
+        if step["pos"] != cur:          # the next configuration is written into the SAME positions array
+            snap.positions[...] = case["pos_list"][step["pos"]]
+            cur = step["pos"]
+            tags.append("positions-mutated-in-place")
+        c = {**case, **step, "pos": case["pos_list"][step["pos"]], "step": k,
+             "sequence": seq if len(seq) > 1 else None}
+        info = _one_call(c, h, snap, written)
+        nontrivial = nontrivial and info["nontrivial"]
+        tags += info["tags"] if k == 0 else [t for t in info["tags"] if t.startswith(("files-", "fd-", "eigen"))]
+        for key, val in info["extra"].items():
+            extra[key] = extra.get(key, 0) + val
+    if len(case["steps"]) > 1:
+        tags += ["pattern-" + case["pattern"], "names-" + case["names"], f"calls{len(case['steps'])}"]
+        st_ = case["steps"]
+        changed = any(a["model"] == b["model"] and (a["n"], a["A"], a["alpha"]) != (b["n"], b["A"], b["alpha"])
+                      and ((a["model"] == "inverse_power_law" and (a["n"], a["A"]) != (b["n"], b["A"])) or
+                           (a["model"] == "harmonic_hertz" and a["alpha"] != b["alpha"]))
+                      for i, a in enumerate(st_) for b in st_[i + 1:])
+        tags.append("same-model-params-changed" if changed else "no-same-model-param-change")
+        nontrivial = bool(info_all_interacting(tags) and (changed or "positions-mutated-in-place" in tags))
+    return {"nontrivial": nontrivial, "tags": tags, "extra": extra}
+
+
+def _upgrade(case):
+    """Replay files written before the call-sequence extension hold a single call at top level."""
+    if "pos_list" in case:
+        return case
+    files = case["files"]
+    step = {"model": case["model"], "n": case["n"], "A": case["A"], "alpha": case["alpha"], "files": files,
+            "out": "" if files == "default-name" else "c11out", "pos": 0}
+    occ = set(int(t) for t in case["types"])
+    return {**case, "base": case["model"], "pos_list": [case["pos"]], "steps": [step], "pattern": "single",
+            "names": "single", "species": "species-all-present" if len(occ) == case["K"] else "species-absent"}
+
+
+def info_all_interacting(tags):
+    return "all-interacting" in tags
+
+
+def _one_call(case, h, snap, written):
     d = case["d"]
     N = len(case["types"])
     dN = d * N
     pos0 = case["pos"].copy()
-    h, snap = make_hessian(case)
     files = case["files"]
-    out = "" if files == "default-name" else "c11out"
-    stem = case["model"] if files == "default-name" else out
+    out = case["out"]
+    stem = out or case["model"]
     kw = dict(interaction_params=interaction_params(case), saveevecs=files != "no-evecs",
               savehessian=files != "no-hessian")
     if out:
         kw["outputfile"] = out
     f_h, f_v, f_c = (f"{stem}.hessianmatrix.npy", f"{stem}.evecs.npy", f"{stem}.omega_PR.csv")
-    for fn in (f_h, f_v, f_c):       # the scratch cwd is shared by the cases of one worker
-        if os.path.exists(fn):
-            os.remove(fn)
     with warnings.catch_warnings():
         warnings.simplefilter("ignore", RuntimeWarning)   # np.where(evals > 0, np.sqrt(evals), evals) warns on evals < 0
         ret = h.diagonalize_hessian(**kw)
     require(ret is None, f"diagonalize_hessian returned {type(ret).__name__}, documented: None")
     require(np.array_equal(snap.positions, pos0), "diagonalize_hessian modified the snapshot positions")
     require(os.path.exists(f_c), f"{f_c} was not written (files in cwd: {sorted(os.listdir('.'))})")
-    require(os.path.exists(f_h) == (files != "no-hessian"), f"savehessian={files != 'no-hessian'} but {f_h} "
-            f"{'missing' if files != 'no-hessian' else 'was written'}")
-    require(os.path.exists(f_v) == (files != "no-evecs"), f"saveevecs={files != 'no-evecs'} but {f_v} "
-            f"{'missing' if files != 'no-evecs' else 'was written'}")
+    for fn, flag, lab in ((f_h, files != "no-hessian", "savehessian"), (f_v, files != "no-evecs", "saveevecs")):
+        if flag:
+            require(os.path.exists(fn), f"{lab}=True but {fn} is missing")
+        elif fn not in written:         # an earlier call of this case may legitimately have left it there
+            require(not os.path.exists(fn), f"{lab}=False but {fn} was written")
+    written.update(fn for fn, flag in ((f_h, files != "no-hessian"), (f_v, files != "no-evecs")) if flag)
 
     par = params_of(case)
     ref = hessref.analytic(case["pos"], case["H"], case["ppp"], case["types"], par)
     # preconditions of the oracle (guaranteed by the strategy)
     gap = np.abs(ref.r_all - ref.rc_all) / ref.rc_all
-    assert gap.min() > 1e-6, "generator: a pair within 1e-6 of its cut-off"
+    assert gap.size == 0 or gap.min() > 1e-6, "generator: a pair within 1e-6 of its cut-off"
     t0 = case["types"] - 1
     assert np.all(ref.r_all >= 0.8 * case["sig"][t0[ref.ii], t0[ref.jj]]), "generator: pair closer than 0.8 sigma"
     assert perp_widths(case["H"]).min() > 2 * case["rc"].max(), "generator: cell narrower than 2 r_c"
@@ -302,7 +465,8 @@ def check(case):
     tags = [f"d{d}", f"K{case['K']}", "shift-on" if case["shift"] else "shift-off",
             "mask-full" if case["ppp"].all() else "mask-partial", "cell-tri" if case["tri"] else "cell-ortho",
             "mass-" + case["mmode"], "files-" + files, "images" if case["images"] else "in-box",
-            "lattice-exact" if case["jf"] == 0 else "jittered"]
+            "lattice-exact" if case["jf"] == 0 else "jittered", case["species"],
+            "N<=3" if N <= 3 else "N>=4"]
     extra = {"interacting_pairs": int(len(ref.r_in)), "nudged_cutoffs": int(case["nudges"])}
 
     df = pd.read_csv(f_c)
@@ -402,14 +566,18 @@ def check(case):
 
     everyone = bool(np.all(ref.coord >= 1))
     tags.append("all-interacting" if everyone else "some-isolated")
-    nontrivial = bool(everyone and case["K"] >= 2 and case["mmode"] == "unequal")
+    occ = sorted(set(int(t) for t in case["types"]))
+    two_masses = len({float(case["masses"][t - 1]) for t in occ}) >= 2
+    nontrivial = bool(everyone and (two_masses or case["species"] == "species-absent-below-a-present-one"))
     return {"nontrivial": nontrivial, "tags": tags, "extra": extra}
 
 
 def describe(case):
-    out = brief(case)
+    case = _upgrade(case)
+    out = brief({**case, **case["steps"][0]})
+    out["steps"] = [{k: v for k, v in st_.items()} for st_ in case["steps"]]
     out["H"] = np.round(case["H"], 4).tolist()
-    out["pos0"] = np.round(case["pos"][:3], 4).tolist()
+    out["pos0"] = np.round(case["pos_list"][0][:3], 4).tolist()
     return out
 
 
@@ -458,8 +626,8 @@ def check_block(case):
 
 
 _RULE = ("full pipeline on generated configurations; oracles (a) analytic, (b) FD of gradient, (c) second differences of "
-         "the energy, symmetry, translations, spectrum, PR; non-trivial = unequal masses, K >= 2, every particle "
-         "interacting")
+         "the energy, symmetry, translations, spectrum, PR; non-trivial = every particle interacting and (unequal masses "
+         "among the occurring species or a declared species absent below an occurring one)")
 FACETS = [
     Facet("lennard_jones", case_st("lennard_jones"), check, quick=600, thorough=8000, describe=describe, rule=_RULE,
           shards_quick=4),
@@ -467,6 +635,12 @@ FACETS = [
           rule=_RULE, shards_quick=4),
     Facet("harmonic_hertz", case_st("harmonic_hertz"), check, quick=600, thorough=8000, describe=describe, rule=_RULE,
           shards_quick=4),
+    Facet("call_sequence", case_st(None, seq=True), check, quick=240, thorough=6000, describe=describe, shards_quick=4,
+          rule="ONE HessianMatrix object, 2-3 diagonalize_hessian calls: same model with a changed exponent / prefactor, "
+               "model A - model B - model A, free; distinct output names, the same name reused, default names; in a "
+               "third of the cases a second configuration is written into snapshot.positions in place between calls; "
+               "every call's files are compared with the oracle for that call; non-trivial = every particle "
+               "interacting and (a same-model parameter change or an in-place position change)"),
     Facet("pair_matrix", block_st(), check_block, quick=600, thorough=40000,
           describe=lambda c: {"d": c["d"], "Rji": c["v"].tolist(), "s": c["s"]},
           rule="Rji in [-3,3]^d (incl. axis-aligned and one tiny component), [s1, s1rc, s2] in [-100,100]^3; "
